@@ -464,7 +464,12 @@ fn expect_recs(rs: &[RecS], k: usize) -> String {
 // -------------------------------------------------------------- generator
 
 fn gen_addr(rng: &mut Rng, v6: bool) -> Vec<u8> {
-    match rng.below(6) { 0 => vec![0; if v6 { 16 } else { 4 }], 1 => vec![0xff; if v6 { 16 } else { 4 }], _ => rng.bytes(if v6 { 16 } else { 4 }) }
+    match rng.below(8) {
+        0 => vec![0; if v6 { 16 } else { 4 }], 1 => vec![0xff; if v6 { 16 } else { 4 }],
+        // IPv6 fields holding an IPv4-mapped (::ffff:a.b.c.d) or IPv4-compatible (::a.b.c.d) address stay the 16 octets
+        // of the file: a peer is the address family the entry's type bit says (round-5 seed: to_canonical() on parse)
+        2 | 3 if v6 => { let mut a = vec![0u8; 10]; a.extend(if rng.bool() { [0xffu8, 0xff] } else { [0u8, 0] }); a.extend(rng.pick(&[vec![10u8, 0, 0, 1], vec![198, 51, 100, 7], vec![0, 0, 0, 1]]).clone()); a }
+        _ => rng.bytes(if v6 { 16 } else { 4 }) }
 }
 
 fn gen_asn(rng: &mut Rng, as4: bool) -> u32 {
